@@ -59,5 +59,19 @@ def main():
     return ctx.finish()
 
 
+def _with_private_tmp():
+    """every temporary file of a run (workers and sub-processes included) lives in build/tmp/run_<pid>, removed at the end"""
+    import shutil
+    import tempfile
+    d = os.path.join(vlib.BUILD, 'tmp', 'run_%d' % os.getpid())
+    os.makedirs(d, exist_ok=True)
+    os.environ['TMPDIR'] = d
+    tempfile.tempdir = d
+    try:
+        return main()
+    finally:
+        shutil.rmtree(d, ignore_errors=True)
+
+
 if __name__ == '__main__':
-    sys.exit(main())
+    sys.exit(_with_private_tmp())
